@@ -127,3 +127,147 @@ func aliasChecks(c C14Case) string {
 	}
 	return ""
 }
+
+// scribbleProbe: a conversion result is a value of its own. Every scalar reachable through a
+// pointer of the result, and every element of its slices, is overwritten in turn; the source
+// of the conversion (snapshot taken before) must not change. It does if the result points
+// into the source (e.g. &wrapper.Value instead of a copy).
+func scribbleProbe(what string, result any, source any) string {
+	snap := func() string { b, _ := json.Marshal(source); return string(b) }
+	before := snap()
+	var fail string
+	var walk func(v reflect.Value, path string, depth int)
+	poke := func(v reflect.Value, path string) {
+		if fail != "" || !v.CanSet() {
+			return
+		}
+		old := reflect.New(v.Type()).Elem()
+		old.Set(v)
+		switch v.Kind() {
+		case reflect.Int, reflect.Int8, reflect.Int16, reflect.Int32, reflect.Int64:
+			v.SetInt(v.Int() ^ 0x55)
+		case reflect.Uint, reflect.Uint8, reflect.Uint16, reflect.Uint32, reflect.Uint64:
+			v.SetUint(v.Uint() ^ 0x55)
+		case reflect.Bool:
+			v.SetBool(!v.Bool())
+		case reflect.String:
+			v.SetString(v.String() + "~scribbled")
+		default:
+			return
+		}
+		if after := snap(); after != before {
+			fail = fmt.Sprintf("writing to %s of the conversion result changed the SOURCE of the conversion:\nbefore %s\nafter  %s", path, before, after)
+		}
+		v.Set(old)
+	}
+	walk = func(v reflect.Value, path string, depth int) {
+		if fail != "" || depth > 8 {
+			return
+		}
+		switch v.Kind() {
+		case reflect.Ptr:
+			if v.IsNil() {
+				return
+			}
+			e := v.Elem()
+			switch e.Kind() {
+			case reflect.Struct, reflect.Slice, reflect.Map, reflect.Ptr, reflect.Interface:
+				walk(e, path, depth+1)
+			default:
+				poke(e, "*"+path)
+			}
+		case reflect.Interface:
+			if !v.IsNil() {
+				walk(v.Elem(), path, depth+1)
+			}
+		case reflect.Struct:
+			for i := 0; i < v.NumField(); i++ {
+				if v.Type().Field(i).PkgPath != "" {
+					continue
+				}
+				f := v.Field(i)
+				switch f.Kind() {
+				case reflect.Ptr, reflect.Interface, reflect.Struct, reflect.Slice, reflect.Map:
+					walk(f, path+"."+v.Type().Field(i).Name, depth+1)
+				}
+			}
+		case reflect.Slice:
+			for i := 0; i < v.Len(); i++ {
+				el := v.Index(i)
+				switch el.Kind() {
+				case reflect.Ptr, reflect.Interface, reflect.Struct, reflect.Slice, reflect.Map:
+					walk(el, fmt.Sprintf("%s[%d]", path, i), depth+1)
+				default:
+					poke(el, fmt.Sprintf("%s[%d]", path, i))
+				}
+			}
+		case reflect.Map:
+			for _, k := range v.MapKeys() {
+				el := v.MapIndex(k)
+				switch el.Kind() {
+				case reflect.Ptr, reflect.Interface, reflect.Slice, reflect.Map:
+					walk(el, fmt.Sprintf("%s[%v]", path, k), depth+1)
+				}
+			}
+		}
+	}
+	walk(reflect.ValueOf(result), what, 0)
+	return fail
+}
+
+// scribbleChecks probes the conversion results of a case against their sources.
+func scribbleChecks(c C14Case) string {
+	switch c.Kind {
+	case "res_oci":
+		if c.OCIRes == nil {
+			return ""
+		}
+		n := api.FromOCILinuxResources(c.OCIRes, nil)
+		if d := scribbleProbe("FromOCILinuxResources()", n, c.OCIRes); d != "" {
+			return d
+		}
+		return scribbleProbe("FromOCILinuxResources().ToOCI()", n.ToOCI(), n)
+	case "res_nri":
+		if c.NRIRes == nil {
+			return ""
+		}
+		return scribbleProbe("LinuxResources.ToOCI()", c.NRIRes.ToOCI(), c.NRIRes)
+	case "mount":
+		nm := api.FromOCIMounts(c.Mounts)
+		if d := scribbleProbe("FromOCIMounts()", &struct{ M []*api.Mount }{nm}, c.Mounts); d != "" {
+			return d
+		}
+		var back []rspec.Mount
+		for _, m := range nm {
+			back = append(back, m.ToOCI(nil))
+		}
+		return scribbleProbe("Mount.ToOCI()", &struct{ M []rspec.Mount }{back}, nm)
+	case "device":
+		nd := api.FromOCILinuxDevices(c.Devices)
+		if d := scribbleProbe("FromOCILinuxDevices()", &struct{ D []*api.LinuxDevice }{nd}, c.Devices); d != "" {
+			return d
+		}
+		var back []rspec.LinuxDevice
+		for _, d := range nd {
+			back = append(back, d.ToOCI())
+		}
+		return scribbleProbe("LinuxDevice.ToOCI()", &struct{ D []rspec.LinuxDevice }{back}, nd)
+	case "hook":
+		nh := api.FromOCIHooks(c.Hooks)
+		if nh == nil {
+			return ""
+		}
+		if d := scribbleProbe("FromOCIHooks()", nh, c.Hooks); d != "" {
+			return d
+		}
+		back := &rspec.Hooks{}
+		for _, h := range nh.Prestart {
+			back.Prestart = append(back.Prestart, h.ToOCI())
+		}
+		for _, h := range nh.Poststop {
+			back.Poststop = append(back.Poststop, h.ToOCI())
+		}
+		return scribbleProbe("Hook.ToOCI()", back, nh)
+	}
+	return ""
+}
